@@ -53,14 +53,27 @@ def implies(a, b):
 
 def base_env():
     env = {'dictview': lambda d: {k: tuple(v) for k, v in d.items()},
+           'strs': lambda: ['', 'a', 'wl_surface', 'wl_*', '*', 'xdg_*', 'wl_display', 'x y', '*a*', 'wl_registry', 'wl_callback', 'wl_buffer', '.', 'a.b'],
            'ints': lambda: list(range(-3, 48)) + list(range(0xff000000 - 2, 0xff000000 + 4)),
+           'cast': lambda cls, x: x,
            'implies': implies, 'sext': lambda a, b: a == b, 'typed': lambda x, t: x, 'fresh': lambda x: True}
     env.update(contracts.SPECFNS)
     env.update(contracts.SPECPREDS)
     from . import ntrace
     ntrace.install()
     env.update(ntrace.accessors())
+    env.update(_class_names())
     return env
+
+
+_CLS = {}
+
+
+def _class_names():
+    if not _CLS:
+        for c in repo.all_classes():
+            _CLS.setdefault(c.__name__, c)
+    return _CLS
 
 
 class _Unavailable:
